@@ -101,6 +101,8 @@ InitCorrupt == \/ c \in [k : {"trunc"}, n : 0..RealLen]
                \* a length field (varint with a 1-byte prefix) inflated to 2^21 / 2^24: the decoder must notice that
                \* the input cannot hold that much before it allocates
                \/ c \in [k : {"inflate"}, p : 1..RealLen, x : {21, 24}]
+               \* two neighbouring one-byte fields inflated together (a size and the count it is supposed to bound)
+               \/ c \in [k : {"inflate2"}, p : 1..RealLen, x : {24}]
                \* an encoded object whose header promises 2^x bytes of payload and brings n: type tags 7..14 are the
                \* length-prefixed kinds (string, bytes, array, map, sync map, compiled function, function, builtin function)
                \/ c \in [k : {"hugeobj"}, p : 7..14, x : {20, 24, 28}, n : {0, 5}]
